@@ -222,7 +222,9 @@ def stepCore (buggy : Bool) (s : State) : Label → Option State
       | _ => none
     else none
   | .timeoutTake w e =>
-    if s.closed = false ∧ s.pc w = some .waiting then
+    -- (also from `spawned`: with `idle_timeout <= 0` the very first wait of a fresh task times out
+    --  without looking at its filled queue)
+    if s.closed = false ∧ (s.pc w = some .spawned ∨ s.pc w = some .waiting) then
       match s.streams w.key with
       | some (.ev e' :: rest) =>
         if e' = e then
